@@ -757,7 +757,8 @@ func (multi *MultiEpoch) processSlotTransactions(
 		}
 	}
 
-	filterOutTxn := func(tx solana.Transaction, meta any) bool {
+	// keepTxn reports whether the transaction satisfies the filter (and must be sent).
+	keepTxn := func(tx solana.Transaction, meta any) bool {
 		if filter == nil {
 			return true
 		}
@@ -848,7 +849,7 @@ func (multi *MultiEpoch) processSlotTransactions(
 					return status.Errorf(codes.Internal, "Failed to parse transaction meta: %v", err)
 				}
 
-				if !filterOutTxn(*txn, meta) {
+				if keepTxn(*txn, meta) {
 
 					txResp := new(old_faithful_grpc.TransactionResponse)
 					txResp.Transaction = new(old_faithful_grpc.Transaction)
@@ -964,7 +965,7 @@ func (multi *MultiEpoch) processSlotTransactions(
 							return
 						}
 
-						if !filterOutTxn(tx, meta) {
+						if keepTxn(tx, meta) {
 							txResp := new(old_faithful_grpc.TransactionResponse)
 							txResp.Transaction = new(old_faithful_grpc.Transaction)
 							{
